@@ -34,7 +34,7 @@ type lockUser struct {
 	bitStale map[string]bool
 }
 
-var lockPaths = []string{"a.dat", "b.dat", "dir/c.dat"}
+var lockPaths = []string{"a.dat", "b.dat", "dir/c.dat", "dir/we ird+&=name.dat"}
 
 func runC16(c *Ctx, faults bool) {
 	t := c.T
@@ -56,6 +56,10 @@ func runC16(c *Ctx, faults bool) {
 	}
 	lf.PageSize = []int{0, 1, 2, 3}[t.Choose(4, "page-size")]
 	lt, locks := sim.NewLockTable(lf)
+	locks.KnownPaths = map[string]bool{}
+	for _, p := range lockPaths {
+		locks.KnownPaths[p] = true
+	}
 	w.Srv.Locks = lt
 
 	remote := w.InitBare("remote.git")
@@ -189,7 +193,7 @@ func runC16(c *Ctx, faults bool) {
 				}
 			}
 		case 5: // listings
-			form := [][]string{{"lfs", "locks"}, {"lfs", "locks", "--verify"}, {"lfs", "locks", "--cached"}, {"lfs", "locks", "--local"}}[t.Choose(4, "locks-form")]
+			form := [][]string{{"lfs", "locks"}, {"lfs", "locks", "--verify"}, {"lfs", "locks", "--cached"}, {"lfs", "locks", "--local"}, {"lfs", "locks", "--path=" + p}}[t.Choose(5, "locks-form")]
 			_, code := w.Git(u.dir, form...)
 			if code == 0 && len(form) == 3 && form[2] == "--verify" && c.sawEvent(locks, evBefore, "listed-verify", u.name, "") {
 				c.resetModel(locks, u)
@@ -323,10 +327,11 @@ func (c *Ctx) pushWithLocks(w *World, locks *sim.Locks, u, other *lockUser, remo
 	before := w.Refs(remote)
 	out, code := w.Git(u.dir, "push", "-q", "origin", "main")
 	after := w.Refs(remote)
+	// The verification a push performs is not written back to the client's
+	// persistent cache (the verifier's lock client is never closed), so it is
+	// not a point at which the client's view is refreshed: only
+	// `git lfs locks --verify` resets the reference model.
 	listed := c.sawEvent(locks, evBefore, "listed-verify", u.name, "")
-	if listed {
-		c.resetModel(locks, u)
-	}
 	if strings.TrimSpace(ahead) == "0" {
 		return
 	}
